@@ -26,6 +26,7 @@ None == -1               \* "no cached value" (never cached, or invalidated); re
 (*   [k |-> "reply", snap]                       GetAll reply, snap: record prop |-> value            *)
 (*   [k |-> "chg", iface, src, path, changed, inval]   PropertiesChanged; iface "own"|"other",       *)
 (*        src "svc"|"stranger", path "own"|"other", changed: record, inval: sequence of names         *)
+(*   [k |-> "getreply", prop, val]                reply to the Get issued by PropertyChanged::get       *)
 (*   [k |-> "obs", cached]                        cached_property of every property, at quiescence     *)
 (*   others ("q", "ready", "streams", ..) do not change the cache                                      *)
 (***************************************************************************)
@@ -39,15 +40,28 @@ ApplyChange(cache, e) ==
   [p \in Props |-> IF p \in Cacheable(e.changed) THEN e.changed[p]
                    ELSE IF p \in InvalSet(e.inval) THEN None ELSE cache[p]]
 
-\* state of the fold: [ready, cache]
-FoldInit == [ready |-> FALSE, cache |-> Empty]
-FoldStep(st, e) ==
-  CASE e.k = "reply" /\ ~st.ready -> [ready |-> TRUE, cache |-> ApplySnapshot(st.cache, e.snap)]
+\* state of the fold: [ready, cache, pend]
+(* A "getreply" event is the reply to the Properties.Get that PropertyChanged::get issues for an invalidated
+   property; the value it carries is stored in the cache.  It takes its place in the receive order like any
+   other message.  Named deviation (devs):
+     "refetch_overwrites_newer": the fetched value is written when the caller resumes, i.e. after every
+        PropertiesChanged signal that was received together with (but after) the reply -- an older value
+        overwrites a newer one.  Modelled by deferring the write to the next quiescent point ("q"). *)
+FoldInit == [ready |-> FALSE, cache |-> Empty, pend |-> <<>>]
+StoreFetched(cache, e) == [p \in Props |-> IF p = e.prop /\ p \notin Uncached THEN e.val ELSE cache[p]]
+FoldStep(st, e, devs) ==
+  CASE e.k = "reply" /\ ~st.ready -> [st EXCEPT !.ready = TRUE, !.cache = ApplySnapshot(st.cache, e.snap)]
     [] e.k = "chg" /\ st.ready /\ Ours(e) -> [st EXCEPT !.cache = ApplyChange(st.cache, e)]
+    [] e.k = "getreply" /\ st.ready ->
+         IF "refetch_overwrites_newer" \in devs THEN [st EXCEPT !.pend = Append(st.pend, e)]
+         ELSE [st EXCEPT !.cache = StoreFetched(st.cache, e)]
+    [] e.k = "q" /\ st.pend # <<>> -> [st EXCEPT !.cache = StoreFetched(st.cache, st.pend[1]), !.pend = <<>>]
     [] OTHER -> st
-RECURSIVE FoldTo(_, _, _)
-FoldTo(evs, n, st) == IF n = 0 THEN st ELSE FoldStep(FoldTo(evs, n - 1, st), evs[n])
-Fold(evs, n) == FoldTo(evs, n, FoldInit)     \* state after the first n events
+RECURSIVE FoldTo(_, _, _, _)
+FoldTo(evs, n, st, devs) == IF n = 0 THEN st ELSE FoldStep(FoldTo(evs, n - 1, st, devs), evs[n], devs)
+FoldD(evs, n, devs) == FoldTo(evs, n, FoldInit, devs)   \* state after the first n events
+Fold(evs, n) == FoldD(evs, n, {})
+KnownDevs == {"refetch_overwrites_newer"}
 
 (***************************************************************************)
 (* Part 2.  State machine.                                                   *)
